@@ -90,6 +90,9 @@ class World:
         t = GS.parse_t(fielddef["type"])
         k = _h(self.salt, canon(path))
         if self.p_err and k % self.p_err == 0:
+            if self.p_err == 6 and (k >> 7) % 3 == 0:
+                # worlds with p_err = 6 (only those: the goldens pin the others) also raise errors whose message is empty
+                return ("error", "", {"code": k % 5, "path": list(path)})
             return ("error", "boom@" + ".".join(str(p) for p in path), {"code": k % 5, "path": list(path)})
         if self.p_null and (k >> 3) % self.p_null == 0:
             return ("value", None)
